@@ -588,6 +588,11 @@ impl<T: GuestMemory + ?Sized> Bytes<GuestAddress> for T {
     type E = Error;
 
     fn write(&self, buf: &[u8], addr: GuestAddress) -> Result<usize> {
+        // An empty buffer names no bytes: always `Ok(0)`, even if `addr` is not mapped.
+        if buf.is_empty() {
+            return Ok(0);
+        }
+
         self.try_access(
             buf.len(),
             addr,
@@ -598,6 +603,11 @@ impl<T: GuestMemory + ?Sized> Bytes<GuestAddress> for T {
     }
 
     fn read(&self, buf: &mut [u8], addr: GuestAddress) -> Result<usize> {
+        // An empty buffer names no bytes: always `Ok(0)`, even if `addr` is not mapped.
+        if buf.is_empty() {
+            return Ok(0);
+        }
+
         self.try_access(
             buf.len(),
             addr,
